@@ -128,6 +128,7 @@ type BCase struct {
 	Fill    int      `json:"fill,omitempty"`
 	Base    uint64   `json:"base,omitempty"`   // absolute stream offset of data[0] (frames/random/multi); lowest offset (passthrough)
 	Slices  []int    `json:"slices,omitempty"` // lengths of the per-datagram slices, in stream order (sum = L)
+	Shape   string   `json:"shape,omitempty"`  // generator label (class bookkeeping only): "tail" | "rtx", see genPackerShape
 	UseB    bool     `json:"use_build,omitempty"`
 	Nil     bool     `json:"nil_layout,omitempty"` // frames: use an empty QUICFrames
 	Layout  []Item   `json:"layout,omitempty"`
@@ -208,6 +209,87 @@ func genSlices(t *rapid.T, l int) []int {
 		prev = c
 	}
 	return out
+}
+
+// genPackerShape draws how the packer meets a PINNED per-datagram layout with a slice the layout was not
+// written for (u_packet_packer.go MarshalInitialPacketPayload: BuildForDatagram(idx, slice, lowest offset)):
+//
+//	"tail": a first flight of k full datagrams plus a short tail - slices of 1100..1250 bytes followed by one of
+//	        0..200 bytes, stream bases 0 (a real first flight) or placed so that the tail starts around / beyond
+//	        16384 (the CRYPTO offset varint grows from 2 to 4 bytes) or far out;
+//	"rtx":  a retransmission / PTO probe of only a part of the ClientHello: ONE slice of 0..300 bytes at a
+//	        non-zero stream offset (small, around 64 / 16384, beyond 16383).
+//
+// Returned: the slices, the base of slices[0], and the slice length a pinned layout is written for.
+func genPackerShape(t *rapid.T) (shape string, slices []int, base uint64, written int) {
+	full := func(label string) int {
+		return rapid.OneOf(rapid.IntRange(1100, 1250), rapid.SampledFrom([]int{1162, 1172, 1200, 1232})).Draw(t, label)
+	}
+	short := func(label string) int {
+		switch rapid.IntRange(0, 7).Draw(t, label+"-cls") {
+		case 0:
+			return 0
+		case 1:
+			return rapid.IntRange(1, 7).Draw(t, label)
+		case 2:
+			return rapid.IntRange(62, 66).Draw(t, label)
+		default:
+			return rapid.IntRange(1, 200).Draw(t, label)
+		}
+	}
+	if rapid.IntRange(0, 4).Draw(t, "shape") < 3 {
+		k := rapid.SampledFrom([]int{1, 1, 1, 2, 2, 3}).Draw(t, "kfull")
+		sum := 0
+		for i := 0; i < k; i++ {
+			slices = append(slices, full("full"))
+			sum += slices[i]
+		}
+		tail := short("tail")
+		slices = append(slices, tail)
+		switch rapid.IntRange(0, 7).Draw(t, "tailbase") {
+		case 0, 1, 2, 3: // the first flight
+			base = 0
+		case 4: // the tail straddles or starts right at the 2-byte / 4-byte offset boundary
+			base = uint64(max(0, 16384-sum-rapid.IntRange(0, tail+1).Draw(t, "below16k")))
+		case 5:
+			base = uint64(rapid.IntRange(16384, 40000).Draw(t, "base>16k"))
+		case 6:
+			base = uint64(1<<30 - sum - rapid.IntRange(0, tail+1).Draw(t, "below1g"))
+		default:
+			base = uint64(rapid.IntRange(1, 6000).Draw(t, "base"))
+		}
+		return "tail", slices, base, slices[0]
+	}
+	n := short("rtxlen")
+	if rapid.IntRange(0, 3).Draw(t, "rtx-longer") == 0 {
+		n = rapid.IntRange(201, 300).Draw(t, "rtxlen2")
+	}
+	switch rapid.IntRange(0, 5).Draw(t, "rtxbase") {
+	case 0, 1:
+		base = uint64(rapid.IntRange(1, 2500).Draw(t, "base"))
+	case 2:
+		base = uint64(max(1, 64-rapid.IntRange(0, n+1).Draw(t, "below64")))
+	case 3:
+		base = uint64(16384 - rapid.IntRange(0, n+1).Draw(t, "below16k"))
+	case 4:
+		base = uint64(rapid.IntRange(16384, 70000).Draw(t, "base>16k"))
+	default:
+		base = uint64(1<<30 - rapid.IntRange(0, n+1).Draw(t, "below1g"))
+	}
+	return "rtx", []int{n}, base, full("written-for")
+}
+
+// pinCounts turns a valid QUICRandomFrames shape into one with FIXED frame counts (Min == Max = "exactly that
+// many", see validRandomFrames) about half of the time: the pinned form of the randomised builders.
+func pinCounts(t *rapid.T, r RF) RF {
+	if !r.validRandomFrames() || !rapid.Bool().Draw(t, "pin-counts") {
+		return r
+	}
+	r.MaxCRYPTO, r.MaxPING = r.MinCRYPTO, r.MinPING
+	if r.Length != 0 {
+		r.MaxPADDING = r.MinPADDING
+	}
+	return r
 }
 
 func genPadLen(t *rapid.T) int {
@@ -445,8 +527,24 @@ func genBCase(t *rapid.T) BCase {
 	c.Seed = rapid.Uint64Range(1, 1<<40).Draw(t, "seed")
 	c.Fill = rapid.SampledFrom([]int{0, 0, 0, 0, 0, 0, 1, 2, 3, 4}).Draw(t, "fill")
 	ood := rapid.IntRange(0, 39).Draw(t, "ood") == 0
+	// about 2 in 5 of the per-datagram builder cases meet their slices the way the packer hands them out when the
+	// ClientHello is "k datagrams + a short tail" or when only a part of it is retransmitted (genPackerShape)
+	packerShape := (c.Kind == "frames" || c.Kind == "random" || c.Kind == "multi") && rapid.IntRange(0, 4).Draw(t, "packer-shape") < 2
 	switch c.Kind {
 	case "frames":
+		if packerShape {
+			// a layout pinned for the first (full) slice, last piece open: later full slices either fit it or fall
+			// back, the short tail / the retransmitted range is shorter than its fixed part most of the time
+			var written int
+			c.Shape, c.Slices, c.Base, written = genPackerShape(t)
+			c.L = 0
+			for _, sl := range c.Slices {
+				c.L += sl
+			}
+			c.Layout = genTilingLayout(t, []int{written, written})
+			c.Reps = genReps(t, true, c.L)
+			break
+		}
 		c.Base = genBase(t, c.L)
 		c.Slices = genSlices(t, c.L)
 		if rapid.IntRange(0, 9).Draw(t, "nil-layout") == 0 {
@@ -518,6 +616,17 @@ func genBCase(t *rapid.T) BCase {
 		c.UseB = true
 		c.Reps = 1
 	case "random":
+		if packerShape {
+			c.Shape, c.Slices, c.Base, _ = genPackerShape(t)
+			c.L = 0
+			for _, sl := range c.Slices {
+				c.L += sl
+			}
+			// counts drawn around the length of the SHORT slice (more frames than it has bytes), or the parrots' shape
+			c.RFs = []RF{pinCounts(t, genRF(t, c.Slices[len(c.Slices)-1], false, false))}
+			c.Reps = min(genReps(t, false, c.L), 256) // several full slices per draw: keep the case cheap
+			break
+		}
 		c.Base = genBase(t, c.L)
 		c.Slices = genSlices(t, c.L)
 		c.RFs = []RF{genRF(t, c.Slices[0], false, true)}
@@ -526,6 +635,27 @@ func genBCase(t *rapid.T) BCase {
 		}
 		c.Reps = genReps(t, false, c.L)
 	case "multi":
+		if packerShape {
+			c.Shape, c.Slices, c.Base, _ = genPackerShape(t)
+			c.L = 0
+			for _, sl := range c.Slices {
+				c.L += sl
+			}
+			// entries for 1..len(slices)+1 datagrams: the short slice meets its own entry, or the repeated last one
+			n := rapid.IntRange(1, len(c.Slices)+1).Draw(t, "nper")
+			for i := 0; i < n; i++ {
+				hint := c.Slices[len(c.Slices)-1]
+				if i < len(c.Slices)-1 && rapid.Bool().Draw(t, "hint-own") {
+					hint = c.Slices[i]
+				}
+				c.RFs = append(c.RFs, pinCounts(t, genRF(t, hint, false, false)))
+			}
+			if c.Shape == "rtx" {
+				c.Idx0 = rapid.IntRange(0, 3).Draw(t, "idx0") // the retransmission is datagram 1, 2, 3 ... of the connection
+			}
+			c.Reps = min(genReps(t, false, c.L), 256) // several full slices per draw: keep the case cheap
+			break
+		}
 		c.Base = genBase(t, c.L)
 		c.Slices = genSlices(t, c.L)
 		n := rapid.SampledFrom([]int{0, 1, 1, 2, 2, 3, 4}).Draw(t, "nper")
@@ -755,6 +885,25 @@ func layoutExpect(items []Item, n int) (fits bool, cover []span) {
 	return true, normalise(sp)
 }
 
+// layoutFixedPart is the number of bytes a QUICFrames layout pins: the end of its furthest explicit-length CRYPTO
+// entry, or the start of its furthest open one, relative to the lowest CRYPTO offset. A slice shorter than that
+// cannot be cut as the layout says.
+func layoutFixedPart(items []Item) int {
+	lowest := math.MaxInt
+	for _, it := range items {
+		if it.T == "c" && it.Off < lowest {
+			lowest = it.Off
+		}
+	}
+	fixed := 0
+	for _, it := range items {
+		if it.T == "c" {
+			fixed = max(fixed, it.Off-lowest+max(it.Len, 0))
+		}
+	}
+	return fixed
+}
+
 // checkB decides one builder case.
 func checkB(c BCase, u *vf.Unit) *vf.Verdict {
 	if c.L < 0 || c.L > 1<<20 || c.Reps < 1 {
@@ -771,7 +920,8 @@ func checkB(c BCase, u *vf.Unit) *vf.Verdict {
 	data := fill(c.L, c.Seed, c.Fill)
 	var o obs
 	nErr, nOK, builds := 0, 0, 0
-	flagF := false // a CRYPTO frame count above the bytes available was requested
+	shapeCls := map[string]bool{} // per-case flags of the "slice does not match the pinned layout" dimension
+	flagF := false                // a CRYPTO frame count above the bytes available was requested
 
 	if c.OOD != "" {
 		return checkOOD(c, data, u)
@@ -793,6 +943,9 @@ func checkB(c BCase, u *vf.Unit) *vf.Verdict {
 		mustSucceed := make([]bool, len(c.Slices))
 		wants := make([][]span, len(c.Slices))
 		underCover := make([]bool, len(c.Slices))
+		misfit := make([]bool, len(c.Slices))  // frames: the layout does not fit the slice (documented fallback: one CRYPTO frame at the true offset)
+		shorter := make([]bool, len(c.Slices)) // the slice is shorter than the pinned part of its layout (fixed pieces / minimum frame count)
+		pinned := false                        // the builder has a pinned part at all
 		for i, sl := range c.Slices {
 			wants[i] = whole(sl)
 		}
@@ -810,6 +963,12 @@ func checkB(c BCase, u *vf.Unit) *vf.Verdict {
 					continue
 				}
 				fits, cover := layoutExpect(c.Layout, sl)
+				if c.Kind == "frames" {
+					fixed := layoutFixedPart(c.Layout)
+					pinned = pinned || fixed > 0
+					misfit[i] = !fits
+					shorter[i] = !fits && sl < fixed
+				}
 				switch {
 				case !fits:
 					// error, or truthful and complete: never a panic, a zero extension or a truncation
@@ -831,6 +990,8 @@ func checkB(c BCase, u *vf.Unit) *vf.Verdict {
 			for i, s := range c.Slices {
 				mustSucceed[i] = c.RFs[0].validRandomFrames()
 				flagF = flagF || int(c.RFs[0].MaxCRYPTO) > s+1 || int(c.RFs[0].MinCRYPTO) > s
+				pinned = pinned || mustSucceed[i]
+				shorter[i] = mustSucceed[i] && int(c.RFs[0].MinCRYPTO) > s
 			}
 		case "multi":
 			m := &quic.QUICMultiDatagramFrames{}
@@ -850,6 +1011,8 @@ func checkB(c BCase, u *vf.Unit) *vf.Verdict {
 				r := c.RFs[min(idx, len(c.RFs)-1)]
 				mustSucceed[i] = r.validRandomFrames()
 				flagF = flagF || int(r.MaxCRYPTO) > s+1 || int(r.MinCRYPTO) > s
+				pinned = pinned || mustSucceed[i]
+				shorter[i] = mustSucceed[i] && int(r.MinCRYPTO) > s
 			}
 		}
 		for rep := 0; rep < reps; rep++ {
@@ -880,6 +1043,9 @@ func checkB(c BCase, u *vf.Unit) *vf.Verdict {
 					if mustSucceed[i] {
 						return vf.Bad("C09/"+area+"/valid-config-rejected", "datagram %d (slice of %d bytes at absolute offset %d): in-range configuration rejected: %v", i, sl, base, out.err)
 					}
+					if misfit[i] && rep == 0 {
+						shapeCls["fallback:error"] = true
+					}
 					if underCover[i] && rep == 0 {
 						u.Class("ood:under-covering-layout:error")
 					}
@@ -888,9 +1054,47 @@ func checkB(c BCase, u *vf.Unit) *vf.Verdict {
 				nOK++
 				// Nothing validates a per-datagram payload after the builder, and nobody else sends the
 				// slice's bytes (QUICFrameBuilderEx doc): every successful result must cover the slice.
+				before := o.ncrypto
 				if v := checkPayload(area, out.payload, slice, base, wants[i], &o); v != nil {
 					v.Detail = fmt.Sprintf("datagram %d (slice of %d bytes at absolute offset %d), draw %d: %s", i, sl, base, rep, v.Detail)
 					return v
+				}
+				if rep == 0 && c.Kind != "passthrough" {
+					// measured: how the slices the packer really hands out meet a pinned layout
+					if misfit[i] {
+						switch {
+						case o.ncrypto-before != 1:
+							shapeCls["fallback:not-a-single-frame(complete)"] = true
+						case base != 0:
+							shapeCls["fallback-single-frame-at-nonzero-offset"] = true
+							if base > 16383 {
+								shapeCls["fallback-single-frame-at-offset>16383"] = true
+							}
+						default:
+							shapeCls["fallback-single-frame-at-offset-0"] = true
+						}
+					}
+					if shorter[i] {
+						shapeCls["slice-shorter-than-layout"] = true
+						if base != 0 {
+							shapeCls["slice-shorter-than-layout:base!=0"] = true
+						}
+						if base > 16383 {
+							shapeCls["slice-shorter-than-layout:base>16383"] = true
+						}
+					}
+					if sl == 0 && pinned {
+						shapeCls["empty-slice"] = true
+						if base != 0 {
+							shapeCls["empty-slice:base!=0"] = true
+						}
+					}
+					if pinned && i > 0 && i == len(c.Slices)-1 && sl >= 1 && sl <= 200 && c.Slices[i-1] >= 1000 {
+						shapeCls["tail-datagram-short"] = true
+						if shorter[i] {
+							shapeCls["tail-datagram-short:shorter-than-layout"] = true
+						}
+					}
 				}
 				if underCover[i] && rep == 0 {
 					var scratch obs
@@ -1074,6 +1278,13 @@ func checkB(c BCase, u *vf.Unit) *vf.Verdict {
 	}
 	if c.Base != 0 {
 		u.Class("base!=0")
+	}
+	for cl := range shapeCls {
+		u.Class(cl)
+		u.Class(c.Kind + ":" + cl)
+	}
+	if c.Shape != "" {
+		u.Class("shape:" + c.Shape)
 	}
 	if c.Kind == "frames" && !c.Nil {
 		misfit := false
